@@ -1,5 +1,7 @@
 mod c01;
 mod c01model;
+mod c17;
+mod c18;
 mod decode;
 mod explore;
 mod fsmon;
@@ -21,6 +23,7 @@ fn main() {
             std::fs::write(format!("{path}.out"), out).expect("write result");
             0
         }
+        Some("parse1") => c17::parse1(&args[2]),
         Some("selftest") => match interpose::self_test(std::path::Path::new(&args[2])) {
             Ok(()) => {
                 println!("selftest ok");
@@ -36,6 +39,8 @@ fn main() {
             let tier = lab::tier();
             match id {
                 "C01" => c01::check(&tier),
+                "C17" => c17::check(&tier),
+                "C18" => c18::check(&tier),
                 _ => {
                     eprintln!("no such check {id}");
                     2
